@@ -20,15 +20,24 @@ using Eigen::indexing::all;
 // ------------------------------------------------------------------------------------------
 // A polynomial optimal-control problem, every function a plain loop with a fixed operation
 // order (mirrored by `Driver/C12.lean` so that the Float instance is bit-exact):
-//   f_t(x,u)_i = t·e_i + Σ_j A_ij x_j + Σ_k B_ik u_k + Σ_jk (Cb_ijk x_j) u_k      (bilinear)
-//   h_t(x,u)   = Hm·(x;u)   (nh > 0), h_N(x) = HN·x (nh_N > 0); without outputs ℓ acts on (x;u) / x
-//   ℓ_t(h)     = Σ_i ½·((w_i h_i) h_i) + (g_i + t·d_i) h_i,   ℓ_N(h) = Σ_i ½·((wN_i h_i) h_i) + gN_i h_i
-//   c_t(x)_i   = t·ce_i + Σ_j Cc_ij x_j + cq_i·x_{i mod nx}²,   c_N(x)_i = Σ_j CcN_ij x_j + cqN_i·x_{i mod nx}²
+// EVERY stage function is time-varying (its coefficients depend on the stage index t), so that a wrong
+// stage index anywhere in OCPEvaluator (forward / backward / Qk / Rk / Sk / R_prod / S_prod) changes the result:
+//   A_t = A + t·dA, B_t = B + t·dB, Hm_t = Hm + t·dHm, w_t = w + t·dw, Cc_t = Cc + t·dCc
+//   f_t(x,u)_i = t·e_i + Σ_j A_t,ij x_j + Σ_k B_t,ik u_k + Σ_jk (Cb_ijk x_j) u_k      (bilinear)
+//   h_t(x,u)   = Hm_t·(x;u)   (nh > 0), h_N(x) = HN·x (nh_N > 0); without outputs ℓ acts on (x;u) / x
+//   ℓ_t(h)     = Σ_i ½·((w_t,i h_i) h_i) + (g_i + t·d_i) h_i,   ℓ_N(h) = Σ_i ½·((wN_i h_i) h_i) + gN_i h_i
+//   c_t(x)_i   = t·ce_i + Σ_j Cc_t,ij x_j + cq_i·x_{i mod nx}²,   c_N(x)_i = Σ_j CcN_ij x_j + cqN_i·x_{i mod nx}²
 struct Prob {
     USING_ALPAQA_CONFIG(alpaqa::DefaultConfig);
     using Box = alpaqa::Box<config_t>;
     length_t N, nx, nu, nh, nh_N, nc, nc_N;
     vec A, B, Cb, e, Hm, HN, w, g, d, wN, gN, Cc, cq, ce, CcN, cqN, Dlb, Dub, DNlb, DNub, xinit;
+    vec dA, dB, dHm, dw, dCc; // stage-dependence of the coefficients
+    real_t At(index_t t, index_t ij) const { return A(ij) + real_t(t) * dA(ij); }
+    real_t Bt(index_t t, index_t ik) const { return B(ik) + real_t(t) * dB(ik); }
+    real_t Hmt(index_t t, index_t ij) const { return Hm(ij) + real_t(t) * dHm(ij); }
+    real_t wt(index_t t, index_t i) const { return w(i) + real_t(t) * dw(i); }
+    real_t Cct(index_t t, index_t ij) const { return Cc(ij) + real_t(t) * dCc(ij); }
 
     length_t get_N() const { return N; }
     length_t get_nu() const { return nu; }
@@ -49,14 +58,14 @@ struct Prob {
     void eval_proj_diff_g(crvec, rvec) const {}
     void check() const {}
 
-    real_t Acur(index_t i, index_t j, crvec u) const {
-        real_t a = A(i * nx + j);
+    real_t Acur(index_t t, index_t i, index_t j, crvec u) const {
+        real_t a = At(t, i * nx + j);
         for (index_t k = 0; k < nu; ++k)
             a += Cb((i * nx + j) * nu + k) * u(k);
         return a;
     }
-    real_t Bcur(index_t i, index_t k, crvec x) const {
-        real_t b = B(i * nu + k);
+    real_t Bcur(index_t t, index_t i, index_t k, crvec x) const {
+        real_t b = Bt(t, i * nu + k);
         for (index_t j = 0; j < nx; ++j)
             b += Cb((i * nx + j) * nu + k) * x(j);
         return b;
@@ -65,44 +74,44 @@ struct Prob {
         for (index_t i = 0; i < nx; ++i) {
             real_t acc = real_t(t) * e(i);
             for (index_t j = 0; j < nx; ++j)
-                acc += A(i * nx + j) * x(j);
+                acc += At(t, i * nx + j) * x(j);
             for (index_t k = 0; k < nu; ++k)
-                acc += B(i * nu + k) * u(k);
+                acc += Bt(t, i * nu + k) * u(k);
             for (index_t j = 0; j < nx; ++j)
                 for (index_t k = 0; k < nu; ++k)
                     acc += (Cb((i * nx + j) * nu + k) * x(j)) * u(k);
             fxu(i) = acc;
         }
     }
-    void eval_jac_f(index_t, crvec x, crvec u, rmat J) const {
+    void eval_jac_f(index_t t, crvec x, crvec u, rmat J) const {
         for (index_t i = 0; i < nx; ++i) {
             for (index_t j = 0; j < nx; ++j)
-                J(i, j) = Acur(i, j, u);
+                J(i, j) = Acur(t, i, j, u);
             for (index_t k = 0; k < nu; ++k)
-                J(i, nx + k) = Bcur(i, k, x);
+                J(i, nx + k) = Bcur(t, i, k, x);
         }
     }
-    void eval_grad_f_prod(index_t, crvec x, crvec u, crvec p, rvec out) const {
+    void eval_grad_f_prod(index_t t, crvec x, crvec u, crvec p, rvec out) const {
         for (index_t j = 0; j < nx; ++j) {
             real_t acc = 0;
             for (index_t i = 0; i < nx; ++i)
-                acc += Acur(i, j, u) * p(i);
+                acc += Acur(t, i, j, u) * p(i);
             out(j) = acc;
         }
         for (index_t k = 0; k < nu; ++k) {
             real_t acc = 0;
             for (index_t i = 0; i < nx; ++i)
-                acc += Bcur(i, k, x) * p(i);
+                acc += Bcur(t, i, k, x) * p(i);
             out(nx + k) = acc;
         }
     }
-    void eval_h(index_t, crvec x, crvec u, rvec h) const {
+    void eval_h(index_t t, crvec x, crvec u, rvec h) const {
         for (index_t i = 0; i < nh; ++i) {
             real_t acc = 0;
             for (index_t j = 0; j < nx; ++j)
-                acc += Hm(i * (nx + nu) + j) * x(j);
+                acc += Hmt(t, i * (nx + nu) + j) * x(j);
             for (index_t k = 0; k < nu; ++k)
-                acc += Hm(i * (nx + nu) + nx + k) * u(k);
+                acc += Hmt(t, i * (nx + nu) + nx + k) * u(k);
             h(i) = acc;
         }
     }
@@ -117,7 +126,7 @@ struct Prob {
     real_t eval_l(index_t t, crvec h) const {
         real_t acc = 0;
         for (index_t i = 0; i < h.size(); ++i)
-            acc += real_t(0.5) * ((w(i) * h(i)) * h(i)) + (g(i) + real_t(t) * d(i)) * h(i);
+            acc += real_t(0.5) * ((wt(t, i) * h(i)) * h(i)) + (g(i) + real_t(t) * d(i)) * h(i);
         return acc;
     }
     real_t eval_l_N(crvec h) const {
@@ -126,14 +135,14 @@ struct Prob {
             acc += real_t(0.5) * ((wN(i) * h(i)) * h(i)) + gN(i) * h(i);
         return acc;
     }
-    real_t gl(index_t t, crvec h, index_t i) const { return w(i) * h(i) + (g(i) + real_t(t) * d(i)); }
+    real_t gl(index_t t, crvec h, index_t i) const { return wt(t, i) * h(i) + (g(i) + real_t(t) * d(i)); }
     real_t glN(crvec h, index_t i) const { return wN(i) * h(i) + gN(i); }
     void eval_qr(index_t t, crvec xu, crvec h, rvec qr) const {
         if (nh > 0) {
             for (index_t j = 0; j < nx + nu; ++j) {
                 real_t acc = 0;
                 for (index_t i = 0; i < nh; ++i)
-                    acc += Hm(i * (nx + nu) + j) * gl(t, h, i);
+                    acc += Hmt(t, i * (nx + nu) + j) * gl(t, h, i);
                 qr(j) = acc;
             }
         } else {
@@ -158,7 +167,7 @@ struct Prob {
         for (index_t i = 0; i < nc; ++i) {
             real_t acc = real_t(t) * ce(i);
             for (index_t j = 0; j < nx; ++j)
-                acc += Cc(i * nx + j) * x(j);
+                acc += Cct(t, i * nx + j) * x(j);
             acc += cq(i) * (x(i % nx) * x(i % nx));
             c(i) = acc;
         }
@@ -172,8 +181,8 @@ struct Prob {
             c(i) = acc;
         }
     }
-    real_t Jc(index_t i, index_t j, crvec x) const {
-        real_t v = Cc(i * nx + j);
+    real_t Jc(index_t t, index_t i, index_t j, crvec x) const {
+        real_t v = Cct(t, i * nx + j);
         if (j == i % nx)
             v += (real_t(2) * cq(i)) * x(j);
         return v;
@@ -184,11 +193,11 @@ struct Prob {
             v += (real_t(2) * cqN(i)) * x(j);
         return v;
     }
-    void eval_grad_constr_prod(index_t, crvec x, crvec p, rvec out) const {
+    void eval_grad_constr_prod(index_t t, crvec x, crvec p, rvec out) const {
         for (index_t j = 0; j < nx; ++j) {
             real_t acc = 0;
             for (index_t i = 0; i < nc; ++i)
-                acc += Jc(i, j, x) * p(i);
+                acc += Jc(t, i, j, x) * p(i);
             out(j) = acc;
         }
     }
@@ -201,18 +210,18 @@ struct Prob {
         }
     }
     // Gauss-Newton blocks of ℓ∘h:  Jhᵀ diag(w) Jh  (Jh = Hm, or the identity without outputs)
-    real_t Jh(index_t i, index_t j) const { return nh > 0 ? Hm(i * (nx + nu) + j) : real_t(i == j); }
+    real_t Jh(index_t t, index_t i, index_t j) const { return nh > 0 ? Hmt(t, i * (nx + nu) + j) : real_t(i == j); }
     length_t nl() const { return nh > 0 ? nh : nx + nu; }
-    real_t H2(index_t a, index_t b) const {
+    real_t H2(index_t t, index_t a, index_t b) const {
         real_t acc = 0;
         for (index_t i = 0; i < nl(); ++i)
-            acc += Jh(i, a) * w(i) * Jh(i, b);
+            acc += Jh(t, i, a) * wt(t, i) * Jh(t, i, b);
         return acc;
     }
-    void eval_add_Q(index_t, crvec, crvec, rmat Q) const {
+    void eval_add_Q(index_t t, crvec, crvec, rmat Q) const {
         for (index_t a = 0; a < nx; ++a)
             for (index_t b = 0; b < nx; ++b)
-                Q(a, b) += H2(a, b);
+                Q(a, b) += H2(t, a, b);
     }
     void eval_add_Q_N(crvec, crvec, rmat Q) const {
         for (index_t a = 0; a < nx; ++a)
@@ -227,32 +236,32 @@ struct Prob {
                 Q(a, b) += acc;
             }
     }
-    void eval_add_R_masked(index_t, crvec, crvec, crindexvec mask, rmat R, rvec) const {
+    void eval_add_R_masked(index_t t, crvec, crvec, crindexvec mask, rmat R, rvec) const {
         for (index_t a = 0; a < mask.size(); ++a)
             for (index_t b = 0; b < mask.size(); ++b)
-                R(a, b) += H2(nx + mask(a), nx + mask(b));
+                R(a, b) += H2(t, nx + mask(a), nx + mask(b));
     }
-    void eval_add_S_masked(index_t, crvec, crvec, crindexvec mask, rmat S, rvec) const {
+    void eval_add_S_masked(index_t t, crvec, crvec, crindexvec mask, rmat S, rvec) const {
         for (index_t a = 0; a < mask.size(); ++a)
             for (index_t b = 0; b < nx; ++b)
-                S(a, b) += H2(nx + mask(a), b);
+                S(a, b) += H2(t, nx + mask(a), b);
     }
-    void eval_add_R_prod_masked(index_t, crvec, crvec, crindexvec mJ, crindexvec mK, crvec v, rvec out,
+    void eval_add_R_prod_masked(index_t t, crvec, crvec, crindexvec mJ, crindexvec mK, crvec v, rvec out,
                                 rvec) const {
         for (index_t a = 0; a < mJ.size(); ++a)
             for (index_t b = 0; b < mK.size(); ++b)
-                out(a) += H2(nx + mJ(a), nx + mK(b)) * v(mK(b));
+                out(a) += H2(t, nx + mJ(a), nx + mK(b)) * v(mK(b));
     }
-    void eval_add_S_prod_masked(index_t, crvec, crvec, crindexvec mK, crvec v, rvec out, rvec) const {
+    void eval_add_S_prod_masked(index_t t, crvec, crvec, crindexvec mK, crvec v, rvec out, rvec) const {
         for (index_t a = 0; a < nx; ++a)
             for (index_t b = 0; b < mK.size(); ++b)
-                out(a) += H2(nx + mK(b), a) * v(mK(b));
+                out(a) += H2(t, nx + mK(b), a) * v(mK(b));
     }
-    void eval_add_gn_hess_constr(index_t, crvec x, crvec M, rmat out) const {
+    void eval_add_gn_hess_constr(index_t t, crvec x, crvec M, rmat out) const {
         for (index_t a = 0; a < nx; ++a)
             for (index_t b = 0; b < nx; ++b)
                 for (index_t i = 0; i < nc; ++i)
-                    out(a, b) += Jc(i, a, x) * M(i) * Jc(i, b, x);
+                    out(a, b) += Jc(t, i, a, x) * M(i) * Jc(t, i, b, x);
     }
     void eval_add_gn_hess_constr_N(crvec x, crvec M, rmat out) const {
         for (index_t a = 0; a < nx; ++a)
@@ -270,6 +279,7 @@ static Prob read_prob(vp::Toks &t) {
     p.w = t.vec(); p.g = t.vec(); p.d = t.vec(); p.wN = t.vec(); p.gN = t.vec();
     p.Cc = t.vec(); p.cq = t.vec(); p.ce = t.vec(); p.CcN = t.vec(); p.cqN = t.vec();
     p.Dlb = t.vec(); p.Dub = t.vec(); p.DNlb = t.vec(); p.DNub = t.vec();
+    p.dA = t.vec(); p.dB = t.vec(); p.dHm = t.vec(); p.dw = t.vec(); p.dCc = t.vec();
     return p;
 }
 
